@@ -26,7 +26,7 @@ from elementpath.helpers import numeric_equal, numeric_not_equal, \
     node_position, get_double
 from elementpath.namespaces import XSD_ERROR, get_namespace, get_expanded_name
 from elementpath.datatypes import UntypedAtomic, QName, AnyURI, \
-    Duration, Integer, DoubleProxy10
+    Duration, Integer, DoubleProxy10, AbstractDateTime
 from elementpath.xpath_nodes import ElementNode, DocumentNode, XPathNode, AttributeNode
 from elementpath.sequences import xlist
 from elementpath.sequence_types import is_instance
@@ -570,6 +570,12 @@ def evaluate__value_comparison_operators(self: XPathToken, context: ta.ContextTy
     else:
         msg = "cannot apply {} between {!r} and {!r}".format(self, *operands)
         raise self.error('XPTY0004', msg)
+
+    if context is not None and context.timezone is not None:
+        for k, value in enumerate(operands):
+            if isinstance(value, AbstractDateTime) and value.tzinfo is None:
+                operands[k] = copy(value)  # don't change the value of the caller
+                operands[k].tzinfo = context.timezone
 
     try:
         return cast(bool, getattr(operator, self.symbol)(*operands))
